@@ -49,6 +49,7 @@ type c05cfg struct {
 	epoch   int
 	inflightBg map[int]int
 	bgTotal map[int]int
+	fg      map[*query_context.Context]bool
 }
 
 type fgMark struct{}
@@ -57,7 +58,7 @@ func c05Setup(rc *RunCtx) simrt.Config {
 	r := rc.R
 	cfg, sname := drawSimConfig(r, 600000)
 	cfg.TraceLimit = 3000
-	c := &c05cfg{vers: map[uint32]*c05ver{}, byKey: map[int][]*c05ver{}, inflightBg: map[int]int{}, bgTotal: map[int]int{}}
+	c := &c05cfg{vers: map[uint32]*c05ver{}, byKey: map[int][]*c05ver{}, inflightBg: map[int]int{}, bgTotal: map[int]int{}, fg: map[*query_context.Context]bool{}}
 	c.lazy = []int{0, 0, 20, 400, 3000}[r.Choose(5)]
 	c.keys = 1 + r.Choose(2)
 	c.phases = 2 + r.Choose(8)
@@ -149,7 +150,7 @@ func c05Main(rc *RunCtx) {
 		}
 		var key int
 		fmt.Sscanf(qc.QQuestion().Name, "k%d.", &key)
-		bg := ctx.Value(fgMark{}) == nil
+		bg := !c.fg[qc] // the refresh runs on a copy of the query context
 		if bg {
 			c.inflightBg[key]++
 			c.bgTotal[key]++
@@ -160,10 +161,19 @@ func c05Main(rc *RunCtx) {
 			defer func() { c.inflightBg[key]-- }()
 		}
 		if simrt.Choose(100) < c.pSlow {
-			simrt.Sleep(0, []time.Duration{time.Millisecond, 100 * time.Millisecond, 2 * time.Second, 6 * time.Second}[simrt.Choose(4)])
+			// a slow origin that honours its context
+			d := []time.Duration{time.Millisecond, 100 * time.Millisecond, 2 * time.Second, 6 * time.Second}[simrt.Choose(4)]
+			tm := time.NewTimer(d)
+			simrt.Select(0, false, simrt.R(tm.C, nil, nil), simrt.R(ctx.Done(), nil, nil))
+			tm.Stop()
 		}
-		if ctx.Err() != nil {
-			return ctx.Err()
+		if err := ctx.Err(); err != nil {
+			if bg && errors.Is(err, context.Canceled) {
+				// the refresh must outlive the request that triggered it: only its own
+				// timeout may end it
+				rc.Fail("background_refresh_cancelled", "the background refresh for key k%d was cancelled (%v) at t=%v although its 5 s budget had not run out: it is tied to the triggering request", key, err, simrt.S.Elapsed())
+			}
+			return err
 		}
 		if simrt.Choose(100) < c.pErr {
 			simrt.Fault("origin_error")
@@ -246,7 +256,10 @@ func c05Main(rc *RunCtx) {
 func c05Query(rc *RunCtx, c *c05cfg, cp *cacheplug.Cache, walker sequence.ChainWalker, key int, id uint16) {
 	q := mkQuery(fmt.Sprintf("k%d.test.", key), dns.TypeA, id)
 	qCtx := query_context.NewContext(q)
-	ctx := context.WithValue(context.Background(), fgMark{}, true)
+	// like the server: the request context is released as soon as the reply is out
+	ctx, release := context.WithCancel(context.WithValue(context.Background(), fgMark{}, true))
+	defer release()
+	c.fg[qCtx] = true
 	nverBefore := c.nver
 	t0 := simrt.S.Elapsed()
 	step0 := simrt.S.Steps()
